@@ -5,3 +5,4 @@ import Spec.Decode
 import Spec.Penalty
 import Spec.Sizing
 import Spec.Judge
+import Spec.Dispatch
